@@ -19,6 +19,7 @@ import (
 	"fmt"
 	"iter"
 	"reflect"
+	"runtime"
 	"sort"
 )
 
@@ -116,6 +117,12 @@ type Run struct {
 
 	FS *FSPlan // call-level file faults; nil = none
 
+	// Aborted is set when the tick or depth budget is exceeded. From then on
+	// every Enter/Tick panics again, so that a run cannot carry on after a
+	// library (text/template recovers panics of the functions it calls) has
+	// swallowed the first panic.
+	Aborted error
+
 	// Trace, when non-nil, receives one line per scheduled event (debugging / replay diff).
 	Trace func(string)
 }
@@ -162,9 +169,14 @@ type Hang struct{ Ticks uint64 }
 func (h Hang) Error() string { return fmt.Sprintf("simrt: tick budget exceeded (%d ticks)", h.Ticks) }
 
 // Overflow is the panic value raised when the call depth exceeds its budget.
-type Overflow struct{ Depth int }
+type Overflow struct {
+	Depth int
+	Func  string // the function whose entry exceeded the budget
+}
 
-func (o Overflow) Error() string { return fmt.Sprintf("simrt: call depth exceeded (%d frames)", o.Depth) }
+func (o Overflow) Error() string {
+	return fmt.Sprintf("simrt: call depth exceeded (%d frames) in %s", o.Depth, o.Func)
+}
 
 // Tick advances simulated time by one unit. Inserted at every loop head.
 func Tick() {
@@ -172,10 +184,13 @@ func Tick() {
 	if r == nil {
 		return
 	}
+	if r.Aborted != nil {
+		panic(r.Aborted)
+	}
 	r.Ticks++
 	if r.Ticks > r.MaxTicks {
-		cur = nil
-		panic(Hang{r.Ticks})
+		r.Aborted = Hang{r.Ticks}
+		panic(r.Aborted)
 	}
 }
 
@@ -185,23 +200,32 @@ func Enter() {
 	if r == nil {
 		return
 	}
+	if r.Aborted != nil {
+		panic(r.Aborted)
+	}
 	r.Ticks++
 	r.Depth++
 	if r.Depth > r.PeakDepth {
 		r.PeakDepth = r.Depth
 	}
 	if r.Depth > r.MaxDepth {
-		cur = nil
-		panic(Overflow{r.Depth})
+		fn := "?"
+		if pc, _, _, ok := runtime.Caller(1); ok {
+			if f := runtime.FuncForPC(pc); f != nil {
+				fn = f.Name()
+			}
+		}
+		r.Aborted = Overflow{r.Depth, fn}
+		panic(r.Aborted)
 	}
 	if r.Ticks > r.MaxTicks {
-		cur = nil
-		panic(Hang{r.Ticks})
+		r.Aborted = Hang{r.Ticks}
+		panic(r.Aborted)
 	}
 }
 
 func Leave() {
-	if r := cur; r != nil {
+	if r := cur; r != nil && r.Aborted == nil {
 		r.Depth--
 	}
 }
